@@ -136,6 +136,11 @@ theorem C02_exact (lower : Bytes → Bytes) (schema : List (List String × Kind)
     i ∈ eval lower (run lower (St.init schema bolt) ops) q ↔ q.sat lower (run lower (St.init schema bolt) ops) i :=
   C02_tree lower (C02_history lower ops (init_inv lower schema bolt) hok) q hwf hv i
 
+/-- **C02_only_live.** Everything a query returns is the node id of a currently stored point. -/
+theorem C02_only_live (lower : Bytes → Bytes) {st : St} (inv : Inv lower st) (q : Query) (hwf : q.wf st = true)
+    (hv : q.Valid) (i : Id) (h : i ∈ eval lower st q) : ∃ p ∈ st.pts, p.id = i :=
+  Query.sat_live lower q hwf i ((C02_tree lower inv q hwf hv i).1 h)
+
 /-- **C02_id_lookup.** `_id` lookups: the node id returned for a uuid is that of the unique live point
 with this uuid. -/
 theorem C02_id_lookup (lower : Bytes → Bytes) {st : St} (inv : Inv lower st) (u : String) (i : Id) :
